@@ -111,11 +111,13 @@ impl super::MainState {
                         if can_send {
                             use PrivMsgTargetType::*;
                             if !(target_type & ChannelAllSpecial).is_empty() {
-                                // send to special users
+                                // send to special users - only once to user that
+                                // have more than one special mode
+                                let mut special_sent = HashSet::<&String>::new();
                                 if !(target_type & ChannelFounder).is_empty() {
                                     if let Some(ref founders) = chanobj.modes.founders {
                                         founders.iter().try_for_each(|u| {
-                                            if u != user_nick {
+                                            if u != user_nick && special_sent.insert(u) {
                                                 state.users.get(u).unwrap().send_msg_display(
                                                     &conn_state.user_state.source,
                                                     &msg_str,
@@ -129,7 +131,7 @@ impl super::MainState {
                                 if !(target_type & ChannelProtected).is_empty() {
                                     if let Some(ref protecteds) = chanobj.modes.protecteds {
                                         protecteds.iter().try_for_each(|u| {
-                                            if u != user_nick {
+                                            if u != user_nick && special_sent.insert(u) {
                                                 state.users.get(u).unwrap().send_msg_display(
                                                     &conn_state.user_state.source,
                                                     &msg_str,
@@ -143,7 +145,7 @@ impl super::MainState {
                                 if !(target_type & ChannelOper).is_empty() {
                                     if let Some(ref operators) = chanobj.modes.operators {
                                         operators.iter().try_for_each(|u| {
-                                            if u != user_nick {
+                                            if u != user_nick && special_sent.insert(u) {
                                                 state.users.get(u).unwrap().send_msg_display(
                                                     &conn_state.user_state.source,
                                                     &msg_str,
@@ -157,7 +159,7 @@ impl super::MainState {
                                 if !(target_type & ChannelHalfOper).is_empty() {
                                     if let Some(ref half_ops) = chanobj.modes.half_operators {
                                         half_ops.iter().try_for_each(|u| {
-                                            if u != user_nick {
+                                            if u != user_nick && special_sent.insert(u) {
                                                 state.users.get(u).unwrap().send_msg_display(
                                                     &conn_state.user_state.source,
                                                     &msg_str,
@@ -171,7 +173,7 @@ impl super::MainState {
                                 if !(target_type & ChannelVoice).is_empty() {
                                     if let Some(ref voices) = chanobj.modes.voices {
                                         voices.iter().try_for_each(|u| {
-                                            if u != user_nick {
+                                            if u != user_nick && special_sent.insert(u) {
                                                 state.users.get(u).unwrap().send_msg_display(
                                                     &conn_state.user_state.source,
                                                     &msg_str,
